@@ -34,10 +34,11 @@ Section Hasher.
     else
       let id := firstn (N.to_nat min_len) hashBz in
       if int_lt (min_len + collisions) hash_len then
-        match nth_error hashBz (N.to_nat collisions) with
-        | Some x => Ok (id ++ [x])
-        | None => Err HPanic
-        end
+        if blen hashBz <=? collisions then Err HPanic   (* hashBz[collisions] out of range *)
+        else match nth_error hashBz (N.to_nat collisions) with
+             | Some x => Ok (id ++ [x])
+             | None => Err HPanic
+             end
       else
         match uvarint collisions with
         | Some u => Ok (id ++ repeat x00 (N.to_nat (hash_len - min_len)) ++ u)
